@@ -44,4 +44,4 @@ for pid in list(PROPS):
         PROPS[pid].update(META[pid])
 
 NOT_APPLICABLE = {}
-HOOK_COMMITS = ["05c1df0a"]
+HOOK_COMMITS = ["05c1df0a", "b471813c"]
